@@ -5,7 +5,7 @@ flags, keyword-vs-identifier collisions (Unless callbacks), several start symbol
 import random
 
 NAME_SAMPLES = ['x', 'yy', 'zq', 'Foo']
-KEYWORDS = ['let', 'show', 'list', 'opt', 'call', 'pair', 'kw', 'neg', 'blk']
+KEYWORDS = ['let', 'show', 'list', 'opt', 'call', 'pair', 'kw', 'neg', 'blk', 'rep', 'esc', 'uni']
 
 
 def _punct(rng, lit, name, named_defs):
@@ -18,8 +18,11 @@ def _punct(rng, lit, name, named_defs):
 
 def gen(rng):
     named = {}
+    use_bytes = rng.random() < 0.15         # bytes mode: patterns are encoded when the lexer is (re)built
     ci = rng.choice(['none', 'none', 'none', 'all', 'all', 'mixed'])      # case-insensitive keywords: none, all, or chosen per keyword
     stmts = rng.sample(KEYWORDS, rng.randint(2, len(KEYWORDS)))
+    if use_bytes and 'uni' in stmts:
+        stmts.remove('uni')                 # (non-ASCII literals are not allowed in bytes mode)
     rules = []
     stmt_alts = []
     mods = {}
@@ -57,6 +60,14 @@ def gen(rng):
         elif kw == 'neg':
             need_expr = True
             stmt_alts.append('%s %s expr %s%s' % (head, P('-', 'MINUS'), P(';', 'SEMI'), alias))
+        elif kw == 'rep':
+            # bounded repetition: compiled into helper rules
+            stmt_alts.append('%s NUM ~ 2..3 (NAME %s) ~ %d %s%s' % (head, P(',', 'COMMA'), rng.choice([1, 2, 5]), P(';', 'SEMI'), alias))
+        elif kw == 'esc':
+            # literals that need escaping in the grammar, in a regexp and in a generated Python module
+            stmt_alts.append('%s "\\\\" NUM "\\"" [NAME] "\\t"? "$" "{" "}}" %s%s' % (head, P(';', 'SEMI'), alias))
+        elif kw == 'uni':
+            stmt_alts.append('%s "\u03bb" NAME "\u2192" NAME "\u00e9"i? %s%s' % (head, P(';', 'SEMI'), alias))
         elif kw == 'blk':
             rules.append('%sbody: stmt*' % mods['body'])
             stmt_alts.append('%s %s %s %s%s' % (head, P('{', 'LBRACE'), ref['body'], P('}', 'RBRACE'), alias))
@@ -71,10 +82,28 @@ def gen(rng):
     if two_starts and need_expr:
         lines.append('single: expr')
     lines += rules
-    npr = rng.choice(['', '', '.1', '.2'])
-    lines.append('NAME%s: /[a-z]+%s/%s' % (npr, '[a-z0-9]*' if rng.random() < 0.3 else '', rng.choice(['', '', '', 'i', 'i', 's', 'm', 'sm', 'is'])))   # flags other than the keywords' own decide which keywords fold into NAME
-    lines.append('NUM%s: /[0-9]+/' % rng.choice(['', '.3']))
-    lines.append('STR: /"[^"\\n]*"/')
+    npr = rng.choice(['', '', '', '', '.1', '.2'])
+    tstyle = rng.choice(['plain', 'plain', 'plain', 'common', 'composed', 'lookaround'])
+    if tstyle == 'plain':
+        lines.append('NAME%s: /[a-z]+%s/%s' % (npr, '[a-z0-9]*' if rng.random() < 0.3 else '', rng.choice(['', '', '', 'i', 'i', 's', 'm', 'sm', 'is'])))   # flags other than the keywords' own decide which keywords fold into NAME
+        lines.append('NUM%s: /[0-9]+/' % rng.choice(['', '.3']))
+        lines.append('STR: /"[^"\\n]*"/')
+    elif tstyle == 'common':
+        # terminals defined through the library shipped with lark (terminals composed of imported terminals, look-behind in the string)
+        lines.append('%import common (CNAME, INT, ESCAPED_STRING)')
+        lines.append('NAME%s: CNAME' % npr)
+        lines.append('NUM: INT')
+        lines.append('STR: ESCAPED_STRING')
+    elif tstyle == 'composed':
+        lines.append('NAME%s: LETTER (LETTER | DIGIT)*' % npr)
+        lines.append('LETTER: /[a-z]/%s | "_"' % rng.choice(['', 'i']))
+        lines.append('DIGIT: "0".."9"')
+        lines.append('NUM: DIGIT+')
+        lines.append('STR: "\\"" /[^"\\n]*/ "\\""')
+    else:
+        lines.append('NAME%s: /(?!zq)[a-z]+(?![0-9])/' % npr)
+        lines.append('NUM: /(?<![a-z])[0-9]+\\b/')
+        lines.append('STR: /"(?:[^"\\n])*"/')
     if blob:
         # a multi-line terminal with several regexp flags, whose only newline indicator is the dot under the `s` flag
         lines.append('BLOB: /<<.+?>>/%s' % rng.choice(['is', 'si', 'ims', 's', 'sm']))
@@ -96,8 +125,8 @@ def gen(rng):
         opts['propagate_positions'] = True
     if rng.random() < 0.15:
         opts['g_regex_flags'] = 2           # re.I
-    if rng.random() < 0.15:
-        opts['use_bytes'] = True            # bytes mode: patterns are encoded when the lexer is (re)built
+    if use_bytes:
+        opts['use_bytes'] = True
     if rng.random() < 0.15:
         opts['regex'] = True                # the `regex` module instead of `re`
     samples = {'NAME': NAME_SAMPLES, 'NUM': ['1', '42'], 'STR': ['"s"', '""'], 'BLOB': ['<<a\nb>>', '<<x>>', '<<\n\n q>>']}
